@@ -36,7 +36,8 @@ std::string hex(const std::string &s) {
     }
     return h;
 }
-const char *NAMES[] = {"", "a", "b c", ".x\xc3\xa9"};
+// a plain name, a hidden name with a space, a name that starts with two dots and has non-ASCII bytes
+const char *NAMES[] = {"", "a", ".b c", "..x\xc3\xa9"};
 
 std::string rel_of(const std::string &node) {   // "1.2.3" -> a/b c/.xé
     std::string r;
@@ -137,10 +138,13 @@ void run_tree(const Execution &ex) {
 
 void run_visitor(const Execution &ex) {
     std::string base = ex.cfg.str("dir", "/tmp") + "/v-" + ex.id + "-" + std::to_string(getpid());
+    // the second test directory is deep: its absolute path is far longer than NAME_MAX (255)
+    std::string deep = base + "/d2 x";
+    for (int k = 0; k < 6; ++k) deep += "/" + std::string(60, (char) ('p' + k));
     fs::create_directories(base + "/d1");
-    fs::create_directories(base + "/d2 x");
+    fs::create_directories(deep);
     fs::current_path(base);
-    std::string dirs[3] = {base, base + "/d1", base + "/d2 x"};
+    std::string dirs[3] = {base, base + "/d1", deep};
     std::vector<std::unique_ptr<tulz::DirectoryVisitor>> stack;
     int i = 0;
     for (const auto &st : ex.steps) {
